@@ -2,12 +2,14 @@
 streams are rejected; every library returned can be written and read back to the same value.
 Model Gds/GdsRead.v (total, explicit Panic / OutOfFuel), theorems Properties/C10.v,
 correspondence by fault injection against gds21::GdsLibrary::from_bytes (+ write + re-read)."""
-import json, os
+import json, os, sys, time
 from vlib import *
 from props.gdscommon import *
 
 HARNESS_BINS = ["c01"]
-C10_PROOF_FILES = ["Gds/GdsSafety_proofs.v", "Gds/GdsImage_proofs.v"]
+C10_PROOF_FILES = ["Gds/GdsSafety_proofs.v", "Gds/GdsImage_proofs.v",
+                   # the write-then-read round trip that C10_reread composes with (shared with C01-C03)
+                   "Gds/GdsRoundtrip_proofs.v", "Gds/GdsRtRead_proofs.v", "Gds/GdsRtUnfold_proofs.v", "Gds/GdsWrite_proofs.v", "Gds/GdsBytes_proofs.v"]
 CLASS_REAL = "gds-real-rounds-to-16^63"
 TWO252 = (252 + 1023) << 52
 FOREIGN = ["/repo/gds21/resources/sample1.gds", "/repo/gds21/resources/invalid_dates.gds",
@@ -60,21 +62,27 @@ def gen_cases(chk):
     g = Gen(r, allow_known=False, allow_empty=True, allow_out_of_range=False)
     cases = []
     dist = {}
+    cur = [None]       # the stream the next cases are derived from (their Coq terms are written as edits of it)
     def add(kind, b):
-        cases.append({"kind": kind, "bytes": bytes(b)})
+        cases.append({"kind": kind, "bytes": bytes(b), "base": cur[0]})
         dist[kind] = dist.get(kind, 0) + 1
-    streams = base_streams(chk, g, 36 if quick else 400)
+    streams = base_streams(chk, g, 48 if quick else 400)
     streams.sort(key=len)
     foreign = [open(f, "rb").read() for f in FOREIGN if os.path.exists(f) and os.path.getsize(f) > 0]
     # 0. the intact streams
     for s in streams:
+        cur[0] = s
         add("intact", s)
     # 1. every truncation point (small streams), record boundaries +-1 (all streams, foreign files)
+    # budgets (thorough): the evaluation costs about 80 us of coqc time per stream byte, so the tiers are sized in bytes:
+    # quick ~3 MB, thorough ~400 MB of streams (most of it shared: a case is written as an edit of its base stream)
     small = [s for s in streams if len(s) <= (400 if quick else 3000)]
-    for s in small[: (4 if quick else 120)]:
+    nsmall = 8 if quick else 120
+    for s in small[:nsmall]:
+        cur[0] = s
         for k in range(len(s)):
             add("truncate_every", s[:k])
-    for s in streams[(4 if quick else 120):] + foreign:
+    for s in [t for t in streams if not any(t is u for u in small[:nsmall])] + foreign:
         recs = split_py(s)
         pts = set()
         for off, ln in recs:
@@ -82,6 +90,9 @@ def gen_cases(chk):
         pts = sorted(p for p in pts if p < len(s))
         if quick:
             pts = r.sample(pts, min(len(pts), 8 if len(s) < 5000 else 3))
+        else:
+            pts = r.sample(pts, min(len(pts), 60 if len(s) < 5000 else 16 if len(s) < 20000 else 6))
+        cur[0] = s
         for k in pts:
             add("truncate_boundary", s[:k])
     # 2. per record: length field faults, zero-length payload, type bytes, structure faults
@@ -89,11 +100,15 @@ def gen_cases(chk):
         recs = split_py(s)
         if not recs:
             continue
+        cur[0] = s
         idxs = list(range(len(recs)))
         if quick:
-            idxs = r.sample(idxs, min(len(idxs), 2 if len(s) < 5000 else 1))
-        elif len(idxs) > 60:
-            idxs = r.sample(idxs, 60)
+            idxs = r.sample(idxs, min(len(idxs), 3 if len(s) < 5000 else 2))
+        else:
+            idxs = r.sample(idxs, min(len(idxs), 10 if len(s) < 5000 else 4 if len(s) < 20000 else 2))
+        # thorough: the record type and data type bytes take EVERY value 0..255 at four record positions of every stream
+        # of at most 800 bytes; elsewhere a sample that always contains valid, invalid and out-of-table values
+        exhaustive = set(idxs[:4]) if (not quick and len(s) <= 800) else set()
         for i in idxs:
             off, ln = recs[i]
             for nl in (0, 1, 2, 3, ln + 1, ln - 2, ln + 2, 0xFFFF, 0xFFFE, 4):
@@ -101,11 +116,16 @@ def gen_cases(chk):
                     continue
                 add("len_field", s[:off] + bytes([nl >> 8, nl & 255]) + s[off + 2:])
             add("zero_payload", s[:off] + bytes([0, 4]) + s[off + 2:off + 4] + s[off + ln:])
-            rts = range(256) if not quick else r.sample(range(256), 3) + r.sample(VALID_RT, 5) + [r.choice([0x3B, 0x3C, 0xFF])]
+            if quick:
+                rts = r.sample(range(256), 3) + r.sample(VALID_RT, 5) + [r.choice([0x3B, 0x3C, 0xFF])]
+            elif i in exhaustive:
+                rts = range(256)
+            else:
+                rts = r.sample(range(256), 6) + r.sample(VALID_RT, 10) + [0x3B, 0x3C, 0xFF]
             for v in rts:
                 if v != s[off + 2]:
                     add("rtype_byte", s[:off + 2] + bytes([v]) + s[off + 3:])
-            for v in (r.sample(range(8), 4) + [r.choice([8, 255])] if quick else range(256)):
+            for v in (r.sample(range(8), 4) + [r.choice([8, 255])] if quick else range(256) if i in exhaustive else list(range(9)) + [0x80, 0xFF]):
                 if v != s[off + 3]:
                     add("dtype_byte", s[:off + 3] + bytes([v]) + s[off + 4:])
             add("rec_deleted", s[:off] + s[off + ln:])
@@ -123,6 +143,7 @@ def gen_cases(chk):
             if ln > 4:
                 p = off + 4 + r.randrange(ln - 4)
                 add("payload_byte", s[:p] + bytes([s[p] ^ (1 << r.randrange(8))]) + s[p + 1:])
+    cur[0] = None
     # 3. zero-length payload / short payloads for EVERY record type and data type, in each context
     ctxs = ((in_lib, "lib"), (in_struct, "struct"), (in_boundary, "boundary"), (in_text, "text"))
     for rt in range(64):
@@ -181,36 +202,129 @@ def gen_cases(chk):
         add("noise_records", b)
     return cases, dist
 
-def eval_balanced(chk, items, tag):
-    """c10_check terms -> codes. The terms differ in size by three orders of magnitude (a fault injected into a 60 kB
-    stream carries the whole stream), so the shards are balanced by term size (longest first into the lightest bin)
-    instead of by count; one coqc per bin, NCPU at a time."""
+PHDR = HDR + "From Coq Require Import Uint63.\nFrom L21 Require Import Gds.GdsPack.\n"
+
+def pbytes(b):
+    """bytes -> Coq term of type list Z through Gds/GdsPack.v: seven bytes per primitive-integer literal (coqc reads those
+    about ten times faster than the characters of a string literal); long runs of one byte become `rep`"""
+    b = bytes(b)
+    if len(b) < 14:
+        return cbytes(b)
+    if len(b) > 256:
+        best, i, n = (0, 0), 0, len(b)
+        while i < n:
+            j = i
+            while j < n and b[j] == b[i]:
+                j += 1
+            if j - i > best[1] - best[0]:
+                best = (i, j)
+            i = j
+        st, e = best
+        if e - st > 128:
+            parts = ([str(pbytes(b[:st]))] if st else []) + ["(rep %d %d)" % (b[st], e - st)] + ([str(pbytes(b[e:]))] if e < n else [])
+            return Raw("(" + " ++ ".join(parts) + ")")
+    out = []
+    for a in range(0, len(b), 1750):
+        ch = b[a:a + 1750]
+        k = len(ch) // 7 * 7
+        ws = "; ".join(str(int.from_bytes(ch[i:i + 7], "big")) for i in range(0, k, 7))
+        tl = "; ".join(str(x) for x in ch[k:])
+        out.append("(unpack [%s]%%uint63 [%s])" % (ws, tl))
+    return Raw(out[0] if len(out) == 1 else "(" + " ++ ".join(out) + ")")
+
+def case_term(c, names):
+    """Coq term for the bytes of a case. A case derived from a base stream is written as an edit of it,
+    `firstn p B ++ middle ++ skipn q B` (common prefix / suffix computed here and asserted to reproduce the bytes; the harness always gets
+    the plain bytes), so that a shard file holds each base stream once
+    instead of once per case (reading a byte string literal costs coqc about 100 us per byte)."""
+    b, base = c["bytes"], c.get("base")
+    if base is None or len(b) < 160 or len(base) < 160:
+        return pbytes(b), None
+    m = min(len(b), len(base))
+    p = 0
+    while p < m and b[p] == base[p]:
+        p += 1
+    q = 0
+    while q < m - p and b[len(b) - 1 - q] == base[len(base) - 1 - q]:
+        q += 1
+    mid = b[p:len(b) - q]
+    if len(mid) * 2 > len(b):
+        return pbytes(b), None
+    assert base[:p] + mid + base[len(base) - q:] == b
+    k = names.setdefault(base, len(names))
+    parts = []
+    if p:
+        parts.append("firstn (Z.to_nat %d) B_%d" % (p, k))
+    if mid:
+        parts.append(str(pbytes(mid)))
+    if q:
+        parts.append("skipn (Z.to_nat %d) B_%d" % (len(base) - q, k))
+    return Raw("(" + " ++ ".join(parts or ["(@nil Z)"]) + ")"), base
+
+def eval_balanced(chk, items, tag, deps=None, names=None, raw=None):
+    """c10_check terms -> codes. One coqc per bin, NCPU at a time. The terms differ in size by three orders of magnitude, so
+    the bins are balanced by size (largest group first into the lightest bin) instead of by count; the items that are edits of
+    a base stream (deps[i] = that stream) are grouped by base, and a bin's file defines the bases it uses once, in its header."""
     if not items:
         return []
     from concurrent.futures import ThreadPoolExecutor as TPE
-    cost = [len(str(it)) + 2000 for it in items]
-    nb = max(1, min(len(items), 3 * NCPU))
+    deps = deps or [None] * len(items)
+    names = names or {}
+    groups = {}
+    for i, d in enumerate(deps):
+        groups.setdefault(d, []).append(i)
+    chunks = []                                  # (cost, base, [item indices])
+    for d, ix in groups.items():
+        step = 400 if d is not None else 150
+        for a in range(0, len(ix), step):
+            part = ix[a:a + step]
+            chunks.append((sum(len(str(items[i])) + 2500 for i in part) + (2 * len(d) + 20000 if d is not None else 0), d, part))
+    nb = max(1, min(len(chunks), max(3 * NCPU, sum(ch[0] for ch in chunks) // 4000000)))
     bins = [[] for _ in range(nb)]
     load = [0] * nb
-    for i in sorted(range(len(items)), key=lambda i: -cost[i]):
+    for ch in sorted(chunks, key=lambda ch: -ch[0]):
         b = load.index(min(load))
-        bins[b].append(i)
-        load[b] += cost[i]
+        bins[b].append(ch)
+        load[b] += ch[0]
     bins = [b for b in bins if b]
     def run(bi):
-        b = bins[bi]
-        return coq_eval_lists(HDR, [items[i] for i in b], chk.rundir, "%s_b%02d" % (tag, bi), shard=len(b))
+        ix = [i for ch in bins[bi] for i in ch[2]]
+        bases = []
+        for ch in bins[bi]:
+            if ch[1] is not None and ch[1] not in bases:
+                bases.append(ch[1])
+        hdr = PHDR + "".join("Definition B_%d : list Z := Eval vm_compute in %s.\n" % (names[d], pbytes(d)) for d in bases)
+        t0 = time.time()
+        # several checks per Coq command (a list of codes): the fixed cost of a command is about as large as a small check
+        K = 12
+        packs = [ix[a:a + K] for a in range(0, len(ix), K)]
+        # self-test of the byte packing (Gds/GdsPack.v against Base/Hex.v unhex) on a stream of this bin
+        probe = raw[ix[0]] if raw is not None else b"\x00\x01\x7f\x80\xfe\xff" * 5
+        selftest = "[if zlist_eqb %s %s then 0 else 1]" % (pbytes(probe[:4000]), cbytes(probe[:4000]))
+        po = coq_eval_lists(hdr, [selftest] + ["[" + "; ".join(str(items[i]) for i in pk) + "]" for pk in packs], chk.rundir, "%s_b%02d" % (tag, bi), shard=len(packs) + 1)
+        if po[0].replace(" ", "") != "[0]":
+            raise RuntimeError("c10: byte packing self-test failed in %s_b%02d: %r" % (tag, bi, po[0][:100]))
+        po = po[1:]
+        o = []
+        for pk, txt in zip(packs, po):
+            vals = [v.strip() for v in txt.strip().strip("[]").split(";") if v.strip()]
+            if len(vals) != len(pk):
+                raise RuntimeError("c10: result count mismatch in %s_b%02d: %r" % (tag, bi, txt[:200]))
+            o.extend(vals)
+        if os.environ.get("C10_DEBUG"):
+            print("bin", bi, "items", len(ix), "cost", sum(ch[0] for ch in bins[bi]), "bases", [len(d) for d in bases], "chunks", [(len(ch[2]), ch[0]) for ch in bins[bi]][:6], "t", round(time.time() - t0, 1), file=sys.stderr)
+        return ix, o
     with TPE(max_workers=NCPU) as ex:
         outs = list(ex.map(run, range(len(bins))))
     codes = [None] * len(items)
-    for b, o in zip(bins, outs):
-        for i, s in zip(b, o):
+    for ix, o in outs:
+        for i, s in zip(ix, o):
             codes[i] = parse_z(s)
     return codes
 
 def evaluate(chk, cases, tag):
-    res = harness("c01", [{"op": "read_write_read", "bytes": c["bytes"].hex()} for c in cases], timeout=300)
-    items, idx = [], []
+    res = harness("c01", [{"op": "read_write_read", "bytes": c["bytes"].hex()} for c in cases], timeout=1800, chunk=20000)
+    items, idx, deps, names = [], [], [], {}
     out = [None] * len(cases)
     for i, (c, r) in enumerate(zip(cases, res)):
         if "r" not in r:
@@ -218,9 +332,11 @@ def evaluate(chk, cases, tag):
             continue
         w = r.get("w")
         wtag = 3 if w is None else 0 if "ok" in w else 1 if "err" in w else 2
-        items.append(capp("c10_check", cbytes(c["bytes"]), c_rres(r["r"]), cz(wtag), c_rres(r.get("r2"))))
+        term, dep = case_term(c, names)
+        items.append(capp("c10_check", term, c_rres(r["r"]), cz(wtag), c_rres(r.get("r2"))))
         idx.append(i)
-    codes = eval_balanced(chk, items, tag)
+        deps.append(dep)
+    codes = eval_balanced(chk, items, tag, deps, names, raw=[cases[i]["bytes"] for i in idx])
     for i, cde in zip(idx, codes):
         r = res[i]
         slim = {"r": "ok" if "ok" in r["r"] else r["r"]}
@@ -255,11 +371,12 @@ def classify(c, impl):
     return "other"
 
 def run(chk, replay=None):
-    chk.proof_leg(MODEL_TARGETS, "Properties/C10.v", C10_PROOF_FILES, "Properties.C10")
+    chk.proof_leg(MODEL_TARGETS + ["Gds/GdsPack.vo"], "Properties/C10.v", C10_PROOF_FILES, "Properties.C10")
     chk.assumptions += [
         "time and stack use of the implementation are measured, not proved (DESIGN.md section 4): the model-level statement is a bound on fuel / records read",
         "out-of-bounds reads cannot be expressed in the model other than as Panic (every slice is checked); the correspondence shows the impl agrees class by class",
         "reading from a byte slice (GdsLibrary::from_bytes); errors compared by GdsError variant",
+        "runner glue: byte strings reach coqc packed seven to a primitive integer literal (Gds/GdsPack.v, self-tested against Base/Hex.v unhex in every shard of every run) and, for a case derived from a base stream, as an edit `firstn p B ++ middle ++ skipn q B` of it (asserted in Python to reproduce the bytes the harness gets)",
     ]
     if not getattr(chk, "model_ok", False):
         return
@@ -280,7 +397,7 @@ def run(chk, replay=None):
         # the code as found: the model of the code as found must predict every panic (and everything else)
         idx = [i for i, (c, r) in enumerate(zip(cases, results)) if isinstance(r[1], dict) and "r" in r[1]]
         res0 = harness("c01", [{"op": "read", "bytes": cases[i]["bytes"].hex()} for i in idx], timeout=300)
-        items = [capp("c10_check_orig", cbytes(cases[i]["bytes"]), c_rres(r0["r"])) for i, r0 in zip(idx, res0) if "r" in r0]
+        items = [capp("c10_check_orig", pbytes(cases[i]["bytes"]), c_rres(r0["r"])) for i, r0 in zip(idx, res0) if "r" in r0]
         oc = eval_balanced(chk, items, "c10orig")
         chk.cov["as_found_model_agrees"] = "%d of %d" % (sum(1 for x in oc if x == 0), len(oc))
     chk.cov["input_distribution"] = dist
